@@ -1,4 +1,6 @@
-CONSTANT NProg = 800
+CONSTANTS
+  NHammer = 60
+  NProg = 800
 INIT Init
 NEXT Next
 INVARIANTS Emit
